@@ -50,5 +50,6 @@ func IsSecured(height uint64) bool {
 	if MaxCheckpoint == 0 {
 		return false
 	}
-	return height/CheckpointInterval <= MaxCheckpoint
+	// heights above the last checkpoint are not pinned by any checkpoint
+	return height <= MaxCheckpoint*CheckpointInterval
 }
